@@ -54,6 +54,8 @@ def gen_chart_scenario(rng, combos=None, nops=(5, 41), spec_kw=None, ops=('ev',)
   }
   if flags and host in ('queued', 'ao'):
     sc['instrumented'] = rng.random() < 0.8
+  if host == 'ao' and rng.random() < 0.3:
+    sc['nameless'] = True     # an active object created without a name (takes effect for decorated builds)
   return sc
 
 
